@@ -195,8 +195,11 @@ def predictAll (c : Cfg) (shape : String) : List Pred := Id.run do
     { op := name, small := showOpt a, large := showOpt b, cls := cls, cause := if cls == "constant" then "-" else cause cls }
   let mut out : List Pred := []
   out := out ++ [depthPred "hash" (if c.hashIterative then "-" else "hashIterative") fun g t => hashDepth c g fuelD t]
-  out := out ++ [depthPred "print-depth" "printNoReentry" fun g t => 1 + printDepth c g fuelD 0 t]
-  out := out ++ [depthPred "drop-depth" "dropAllIterative" fun g t => dropDepth c g fuelD t]
+  -- the flag that is to blame: boxes / pairs only if their own flag is (again) off
+  out := out ++ [depthPred "print-depth" (if c.printBoxNoReentry then "printMapNoReentry" else "printBoxNoReentry")
+    fun g t => 1 + printDepth c g fuelD 0 t]
+  out := out ++ [depthPred "drop-depth" (if c.dropPairSetIterative then "dropClosureBoxIterative" else "dropPairSetIterative")
+    fun g t => dropDepth c g fuelD t]
   out := out ++ [depthPred "eq-key-depth" "eqKeysIterative" fun g t => eqKeyDepth c g fuelD t]
   out := out ++ [roundPred "eq" (fun _ => "eqBoxVisited") fun g a b fuel =>
     (iterCount (eqStep c g (leafKeyEq g)) fuel 0 { work := [(a, b)], vis := [] }).map (·.2)]
@@ -301,7 +304,8 @@ def scannedCfg' : Cfg :=
   { eqBoxVisited := Gen.eqBoxVisited, eqMixVecVisited := Gen.eqMixVecVisited, eqKeysIterative := Gen.eqKeysIterative,
     markSboxVisited := Gen.markSboxVisited, markImmVisited := Gen.markImmVisited, ccSboxMutable := Gen.ccSboxMutable,
     ccTracksAlways := Gen.ccTracksAlways, hashIterative := Gen.hashIterative, hashCycleSafe := Gen.hashCycleSafe,
-    printNoReentry := Gen.printNoReentry, dropAllIterative := Gen.dropAllIterative }
+    printBoxNoReentry := Gen.printBoxNoReentry, printMapNoReentry := Gen.printMapNoReentry,
+    dropPairSetIterative := Gen.dropPairSetIterative, dropClosureBoxIterative := Gen.dropClosureBoxIterative }
 
 open SteelVerif.C18 in
 partial def loop (h : IO.FS.Stream) : IO Unit := do
